@@ -50,15 +50,43 @@ class Unit:
         self.tier = self.d.get("tier", "quick")
         self.source = self.d["source"]
         self.prelude = self.d.get("prelude")
+        self.preludes = [self.prelude] if isinstance(self.prelude, str) else list(self.prelude or [])
+        self.prelude = self.preludes[0] if self.preludes else None
         self.container = self.d.get("container", "impl P")
         self.rules = self.d.get("rules", [])
         self.defs = self.d.get("defs", {})
-        self.fns = self.d.get("fn", [])
+        self.fns = list(self.d.get("fn", []))
         self.extra = self.d.get("extra", "")
 
 
 def load_units():
-    return [Unit(p) for p in sorted(glob.glob(os.path.join(UNIT_DIR, "*.toml")))]
+    units = [Unit(p) for p in sorted(glob.glob(os.path.join(UNIT_DIR, "*.toml")))]
+    by_name = {u.name: u for u in units}
+    # `[[import]] unit = "x" paths = [..]`: the callee's contract is taken verbatim from the unit
+    # that proves it and included here as external_body (one source of truth per contract)
+    for u in units:
+        for imp in u.d.get("import", []):
+            src = by_name.get(imp["unit"])
+            if src is None:
+                raise Undecided("unit %s imports unknown unit %s" % (u.name, imp["unit"]))
+            for path in imp["paths"]:
+                cand = [f for f in src.d.get("fn", []) if f["path"] == path]
+                if len(cand) != 1:
+                    raise Undecided("unit %s imports %s which unit %s does not define" % (u.name, path, imp["unit"]))
+                f = dict(cand[0])
+                f["mode"] = "external"
+                f["imported_from"] = imp["unit"]
+                f.setdefault("source", src.source)
+                for k in ("requires", "ensures"):
+                    f[k] = [subst(src.defs, c) for c in f.get(k, [])]
+                # frame of the importing container's extra fields (BaseParser default methods
+                # can only reach the lexer through toks()/toks_mut())
+                f["ensures"] = f["ensures"] + list(imp.get("frame", []))
+                f.pop("loop", None)
+                f.pop("subst", None)
+                f.pop("proof", None)
+                u.fns.append(f)
+    return units
 
 
 def units_for(prop, tier):
@@ -219,7 +247,7 @@ def assemble_fn(unit, spec, idx, raw, counts):
         pname = "sat_probe_" + re.sub(r"\W+", "_", spec["path"])
         args = spec.get("probe_args", "")
         r2 = [c.replace("old(self)", "s").replace("self", "s") for c in req]
-        probes.append((pname, "    proof fn %s(s: P%s)\n        requires\n%s        ensures false,\n    {}\n" % (pname, (", " + args) if args else "", "".join("            " + c + ",\n" for c in r2))))
+        probes.append((pname, "    proof fn %s(s: %s%s)\n        requires\n%s        ensures false,\n    {}\n" % (pname, unit.container.split()[-1], (", " + args) if args else "", "".join("            " + c + ",\n" for c in r2))))
     return f, "    " + text.strip("\n") + "\n", probes
 
 
@@ -243,10 +271,17 @@ def build_unit(unit, scratch, outdir):
 
     if "R1" in unit.rules:
         check_accessor_impls(scratch, counts)
+    for eb in unit.d.get("expect_body", []):
+        raw_e, idx_e = src_of(eb)
+        fe = find_fn(idx_e, eb["path"], eb.get("trait"))
+        got = " ".join(raw_e[fe["body_open"] : fe["body_close"] + 1].decode().split())
+        if got != " ".join(eb["body"].split()):
+            raise Undecided("anchor lost: body of %s is no longer %r (substitution rule not applicable)" % (eb["path"], eb["body"]))
+        counts["expect_body_checked"] = counts.get("expect_body_checked", 0) + 1
     parts = ["use vstd::prelude::*;\nverus! {\n"]
-    if unit.prelude:
-        parts.append("// ---- prelude: %s (assumptions) ----\n" % unit.prelude)
-        parts.append(open(os.path.join(UNIT_DIR, unit.prelude)).read())
+    for pre in unit.preludes:
+        parts.append("// ---- prelude: %s (assumptions) ----\n" % pre)
+        parts.append(open(os.path.join(UNIT_DIR, pre)).read())
     parts.append("\n// ---- vacuity probe: MUST FAIL ----\nproof fn vacuity_probe()\n    ensures false,\n{}\n")
     if unit.extra:
         parts.append("\n// ---- unit-level spec functions and lemmas ----\n" + unit.extra + "\n")
@@ -269,6 +304,7 @@ def build_unit(unit, scratch, outdir):
                 "source": spec.get("source", unit.source),
                 "name": spec["path"].split("::")[-1],
                 "mode": spec.get("mode", "verify"),
+                "imported_from": spec.get("imported_from"),
                 "first_line": line,
                 "last_line": line + n,
                 "repo_lines": [f["line"], f["end_line"]],
@@ -428,12 +464,13 @@ def run_unit(unit, scratch):
                 base.update(status="undecided", note="; ".join(soft)[:300])
         obligations[oid] = base
     assumptions = []
-    ext = [fm["path"] for fm in fn_meta if fm["mode"] == "external"]
+    ext = [fm["path"] + (" (contract proved in unit %s)" % fm["imported_from"] if fm.get("imported_from") else "") for fm in fn_meta if fm["mode"] == "external"]
     if ext:
         assumptions.append("verus unit %s: external_body (contract assumed, body not verified by Verus): %s" % (unit.name, ", ".join(ext)))
-    if unit.prelude:
-        ptxt = open(os.path.join(UNIT_DIR, unit.prelude)).read()
-        assumptions.append("verus unit %s: prelude %s declares %d external_body items and %d assume_specification items (Lexer interface, char predicates, error conversion)" % (unit.name, unit.prelude, ptxt.count("external_body"), ptxt.count("assume_specification")))
+    for pre in unit.preludes:
+        ptxt = open(os.path.join(UNIT_DIR, pre)).read()
+        unit_prelude = pre
+        assumptions.append("verus unit %s: prelude %s declares %d external_body items and %d assume_specification items (Lexer interface, char predicates, error conversion)" % (unit.name, unit_prelude, ptxt.count("external_body"), ptxt.count("assume_specification")))
     for k, v in sorted(counts.items()):
         assumptions.append("verus unit %s: rewrite %s applied %d time(s)" % (unit.name, k, v))
     whole = open(path).read()
